@@ -2,66 +2,60 @@
    Property theorems only; each is closed by a lemma of proofs/TagsP.v, FieldsP.v, C08RefP.v.
    quote/unquote stand for strconv.Quote/Unquote; QuoteSpec and OracleFacts (model/Tags.v) are the
    hypotheses about them, evaluated by the correspondence check on every recorded answer of the real functions. *)
-From LR Require Import lib.Base model.KV model.Tags model.Fields proofs.KVP proofs.TagsP proofs.FieldsP proofs.C08RefP proofs.QuoteInstP proofs.ParsedP.
+From LR Require Import lib.Base model.KV model.Tags model.Fields proofs.KVP proofs.TagsP proofs.FieldsP proofs.C08RefP proofs.QuoteInstP proofs.ParsedP proofs.TagsInjP.
 From Coq Require Import Permutation.
 
-(* ---- the full statements (false of the faithful model, see the _refuted theorems) ---- *)
-(* whatever text was accepted, the line printed for its tag set is accepted and denotes that tag set *)
+(* ---- the full statements ---- *)
+(* whatever text was accepted, the line printed for its tag set is accepted and denotes that tag set
+   (false of the code for two input classes, see the _refuted theorems) *)
 Definition C08_tags_statement (quote : bytes -> bytes) (unquote : bytes -> option bytes) : Prop :=
   forall s m, to_map unquote s = Ok m -> to_map unquote (line quote m) = Ok m.
-(* whatever text was accepted, the text printed for its field list is accepted and denotes that list *)
-Definition C08_fields_statement (quote : bytes -> bytes) (unquote : bytes -> option bytes) : Prop :=
-  forall s f, fields_of_kv unquote s = Ok f -> exists t, as_kv quote f = Ok t /\ fields_of_kv unquote t = Ok f.
+(* whatever text was accepted, the text printed for its field list is accepted and denotes that list; stated for a
+   variant (fxq: AsKVString, fxl: NewFieldsFromKVString) -- the code is the variant (true, true) = as_kv / fields_of_kv *)
+Definition C08_fields_statement_v (fxq fxl : bool) (quote : bytes -> bytes) (unquote : bytes -> option bytes) : Prop :=
+  forall s f, fields_of_kv_v fxl unquote s = Ok f ->
+    exists t, as_kv_v fxq quote f = Ok t /\ fields_of_kv_v fxl unquote t = Ok f.
 (* the provenance fields the pipe worker derives from a source tag line are exactly the tags *)
 Definition C08_pipe_provenance_statement (quote : bytes -> bytes) (unquote : bytes -> option bytes) : Prop :=
   forall s m, to_map unquote s = Ok m -> fields_of_kv unquote (line quote m) = Ok (enc_fields (flat m)).
 
 (* ---- tags ---- *)
-(* proved part: every canonical tag set whose names and raw-printed values are scanner-safe (tag_safe) *)
+(* proved part: every canonical tag set whose names are scanner-safe, whose first name does not start with '{' and
+   whose raw-printed values have balanced double quotes (tag_safe).  Blanks at an end, leading quote characters, a
+   closing brace at the end of the line are no longer conditions: line() quotes such values *)
 Theorem C08_tags_partial : forall quote unquote, QuoteSpec quote unquote ->
   forall m, keys_sorted m = true -> tag_safe m = true -> to_map unquote (line quote m) = Ok m.
 Proof. intros quote unquote QS m. exact (tags_roundtrip quote unquote QS m). Qed.
 Print Assumptions C08_tags_partial.
 
 (* for ACCEPTED tag sets the names need no hypothesis (every name tag.Parse yields is scanner-safe): the law holds
-   whenever every value is safe to print and the two ends of the line are harmless *)
+   whenever every value is quoted or has balanced double quotes, and the first name does not start with '{' *)
 Theorem C08_tags_accepted_partial : forall quote unquote, QuoteSpec quote unquote ->
-  forall s m, to_map unquote s = Ok m ->
-    forallb (fun kv => tag_value_safe (snd kv)) m = true -> tag_edges_ok m = true ->
+  forall s m, to_map unquote s = Ok m -> tag_values_safe m = true -> tag_edges_ok m = true ->
     to_map unquote (line quote m) = Ok m.
 Proof. exact tags_roundtrip_parsed. Qed.
 Print Assumptions C08_tags_accepted_partial.
 
-(* refutations, one per input class; each exhibits an ACCEPTED text *)
+(* the two remaining input classes; each exhibits an ACCEPTED text *)
+(* (1) a raw-printed value with an unbalanced double quote -- TestTagLine pins that the value a, double quote, pp
+   is printed raw *)
 Theorem C08_tags_unbalanced_dquote_refuted : forall quote unquote, QuoteSpec quote unquote ->
   exists s m, to_map unquote s = Ok m /\ to_map unquote (line quote m) = Err.
 Proof. exact tags_unbalanced_dquote. Qed.
 Print Assumptions C08_tags_unbalanced_dquote_refuted.
-Theorem C08_tags_trailing_brace_refuted : forall quote unquote, QuoteSpec quote unquote ->
-  exists s m, to_map unquote s = Ok m /\ to_map unquote (line quote m) = Err.
-Proof. exact tags_trailing_brace. Qed.
-Print Assumptions C08_tags_trailing_brace_refuted.
-Theorem C08_tags_edge_blank_refuted : forall quote unquote, QuoteSpec quote unquote ->
+(* ... two of them in one set: the line is accepted again and denotes ANOTHER set *)
+Theorem C08_tags_unbalanced_dquote_other_set_refuted : forall quote unquote, QuoteSpec quote unquote ->
   exists s m m', to_map unquote s = Ok m /\ to_map unquote (line quote m) = Ok m' /\ m' <> m.
-Proof. exact tags_edge_blank. Qed.
-Print Assumptions C08_tags_edge_blank_refuted.
+Proof.
+  intros quote unquote QS. destruct (tags_unbalanced_other_set quote unquote QS) as (H1 & H2 & H3).
+  exists (join_pairs (map (fq quote) M_XY)), M_XY, [(A, V_XY)]. split; [exact H1|]. rewrite H2. split; [exact H3|discriminate].
+Qed.
+Print Assumptions C08_tags_unbalanced_dquote_other_set_refuted.
+(* (2) a smallest name starting with '{' (names are printed as they are) *)
 Theorem C08_tags_leading_brace_name_refuted : forall (quote : bytes -> bytes) unquote,
   exists s m, to_map unquote s = Ok m /\ to_map unquote (line quote m) = Err.
 Proof. exact tags_leading_brace_name. Qed.
 Print Assumptions C08_tags_leading_brace_name_refuted.
-Theorem C08_tags_leading_dquote_refuted : forall quote unquote, QuoteSpec quote unquote -> OracleFacts quote unquote ->
-  exists s m m', to_map unquote s = Ok m /\ to_map unquote (line quote m) = Ok m' /\ m' <> m.
-Proof. exact tags_leading_dquote. Qed.
-Print Assumptions C08_tags_leading_dquote_refuted.
-Theorem C08_tags_leading_backquote_refuted : forall quote unquote, QuoteSpec quote unquote -> OracleFacts quote unquote ->
-  exists s m m', to_map unquote s = Ok m /\ to_map unquote (line quote m) = Ok m' /\ m' <> m.
-Proof. exact tags_leading_backquote. Qed.
-Print Assumptions C08_tags_leading_backquote_refuted.
-(* printing is not injective on accepted tag sets: two different sets, one line *)
-Theorem C08_tags_injective_refuted : forall quote unquote, QuoteSpec quote unquote -> OracleFacts quote unquote ->
-  exists s1 s2 m1 m2, to_map unquote s1 = Ok m1 /\ to_map unquote s2 = Ok m2 /\ m1 <> m2 /\ line quote m1 = line quote m2.
-Proof. exact tags_collision. Qed.
-Print Assumptions C08_tags_injective_refuted.
 (* hence the full statement fails *)
 Theorem C08_tags_refuted : forall quote unquote, QuoteSpec quote unquote -> ~ C08_tags_statement quote unquote.
 Proof.
@@ -70,6 +64,52 @@ Proof.
 Qed.
 Print Assumptions C08_tags_refuted.
 
+(* What the repair bought: the earlier line() (variant false: quotes only the empty value and values with '=' ',')
+   printed these accepted sets so that the line was rejected or denoted another set ... *)
+Theorem C08_tags_trailing_brace_unquoted_refuted : forall quote unquote, QuoteSpec quote unquote ->
+  exists s m, to_map unquote s = Ok m /\ to_map unquote (line_v false quote m) = Err.
+Proof. exact tags_trailing_brace. Qed.
+Print Assumptions C08_tags_trailing_brace_unquoted_refuted.
+Theorem C08_tags_edge_blank_unquoted_refuted : forall quote unquote, QuoteSpec quote unquote ->
+  exists s m m', to_map unquote s = Ok m /\ to_map unquote (line_v false quote m) = Ok m' /\ m' <> m.
+Proof. exact tags_edge_blank. Qed.
+Print Assumptions C08_tags_edge_blank_unquoted_refuted.
+Theorem C08_tags_leading_dquote_unquoted_refuted : forall quote unquote, QuoteSpec quote unquote -> OracleFacts quote unquote ->
+  exists s m m', to_map unquote s = Ok m /\ to_map unquote (line_v false quote m) = Ok m' /\ m' <> m.
+Proof. exact tags_leading_dquote. Qed.
+Print Assumptions C08_tags_leading_dquote_unquoted_refuted.
+Theorem C08_tags_leading_backquote_unquoted_refuted : forall quote unquote, QuoteSpec quote unquote -> OracleFacts quote unquote ->
+  exists s m m', to_map unquote s = Ok m /\ to_map unquote (line_v false quote m) = Ok m' /\ m' <> m.
+Proof. exact tags_leading_backquote. Qed.
+Print Assumptions C08_tags_leading_backquote_unquoted_refuted.
+(* ... and printed two different sets as one line *)
+Theorem C08_tags_injective_unquoted_refuted : forall quote unquote, QuoteSpec quote unquote -> OracleFacts quote unquote ->
+  exists s1 s2 m1 m2, to_map unquote s1 = Ok m1 /\ to_map unquote s2 = Ok m2 /\ m1 <> m2 /\
+    line_v false quote m1 = line_v false quote m2.
+Proof. exact tags_collision. Qed.
+Print Assumptions C08_tags_injective_unquoted_refuted.
+(* the code prints every one of those sets so that it comes back *)
+Theorem C08_tags_repaired_witnesses : forall quote unquote, QuoteSpec quote unquote ->
+  Forall (fun m => to_map unquote (line quote m) = Ok m)
+    [[(A, [x78; RBR])]; [(A, [SP; x78])]; [(A, DQ_X)]; [(A, BQ_X)]; [(A, [])]; [(A, [QUOTE; QUOTE])]].
+Proof. exact tags_repaired_witnesses. Qed.
+Print Assumptions C08_tags_repaired_witnesses.
+
+(* ... and no two accepted tag sets share a line any more: the line() of the code is injective on accepted sets, whatever
+   their values (a raw-printed value has no ',' and does not start with a double quote, a quoted one is a scanner-
+   neutral literal that starts with one).  Full statement, no side condition. *)
+Theorem C08_tags_injective : forall quote unquote, QuoteSpec quote unquote ->
+  forall s1 s2 m1 m2, to_map unquote s1 = Ok m1 -> to_map unquote s2 = Ok m2 ->
+    line quote m1 = line quote m2 -> m1 = m2.
+Proof.
+  intros quote unquote QS s1 s2 m1 m2 H1 H2. apply (line_injective quote unquote QS).
+  - apply SS_keys_sorted. exact (to_map_canonical unquote s1 m1 H1).
+  - apply SS_keys_sorted. exact (to_map_canonical unquote s2 m2 H2).
+  - apply forallb_forall. exact (to_map_names unquote s1 m1 H1).
+  - apply forallb_forall. exact (to_map_names unquote s2 m2 H2).
+Qed.
+Print Assumptions C08_tags_injective.
+
 (* emitting is deterministic: the line does not depend on the order in which the Go map is iterated *)
 Theorem C08_canonical : forall quote m ord, keys_sorted m = true -> Permutation ord m ->
   line_ord quote ord = line quote m.
@@ -77,37 +117,52 @@ Proof. intros quote m ord. exact (line_ord_perm quote m ord). Qed.
 Print Assumptions C08_canonical.
 
 (* ---- fields ---- *)
-Theorem C08_fields_partial : forall quote unquote, QuoteSpec quote unquote ->
-  forall f, fields_safe quote f = true -> exists t, as_kv quote f = Ok t /\ fields_of_kv unquote t = Ok f.
+(* the full statement, for the code: whatever NewFieldsFromKVString accepted is printed by AsKVString as a text that
+   NewFieldsFromKVString accepts and that denotes the same list.  No side condition. *)
+Theorem C08_fields : forall quote unquote, QuoteSpec quote unquote ->
+  C08_fields_statement_v code_fields_quote code_fields_limit_stored quote unquote.
+Proof. intros quote unquote QS s f. exact (fields_law quote unquote QS s f). Qed.
+Print Assumptions C08_fields.
+(* the same for every well-formed binary list, wherever it comes from (stored events, merged lists) *)
+Theorem C08_fields_wellformed : forall quote unquote, QuoteSpec quote unquote ->
+  forall f, fields_wf f = true -> exists t, as_kv quote f = Ok t /\ fields_of_kv unquote t = Ok f.
 Proof. intros quote unquote QS f. exact (fields_roundtrip quote unquote QS f). Qed.
-Print Assumptions C08_fields_partial.
+Print Assumptions C08_fields_wellformed.
+(* what is accepted is well-formed: pairs of strings of at most 255 bytes (the length byte cannot wrap) *)
+Theorem C08_fields_accepted_wellformed : forall unquote s f, fields_of_kv unquote s = Ok f ->
+  exists l, f = enc_fields (flat l) /\ Forall pair_le255 l.
+Proof. exact fields_accepted_wf. Qed.
+Print Assumptions C08_fields_accepted_wellformed.
 
-Theorem C08_fields_name_separator_refuted : forall quote unquote, QuoteSpec quote unquote ->
-  exists s f t, fields_of_kv unquote s = Ok f /\ as_kv quote f = Ok t /\ fields_of_kv unquote t = Err.
+(* What the repair bought: with the earlier AsKVString (values quoted on ',' '=' only, names never) and the earlier
+   255-byte test on the raw piece the statement fails, one witness per class *)
+Theorem C08_fields_name_separator_unquoted_refuted : forall quote unquote, QuoteSpec quote unquote ->
+  exists s f t, fields_of_kv_v false unquote s = Ok f /\ as_kv_v false quote f = Ok t /\ fields_of_kv_v false unquote t = Err.
 Proof. exact fields_name_separator. Qed.
-Print Assumptions C08_fields_name_separator_refuted.
-Theorem C08_fields_unbalanced_dquote_refuted : forall quote unquote, QuoteSpec quote unquote ->
-  exists s f t, fields_of_kv unquote s = Ok f /\ as_kv quote f = Ok t /\ fields_of_kv unquote t = Err.
+Print Assumptions C08_fields_name_separator_unquoted_refuted.
+Theorem C08_fields_unbalanced_dquote_unquoted_refuted : forall quote unquote, QuoteSpec quote unquote ->
+  exists s f t, fields_of_kv_v false unquote s = Ok f /\ as_kv_v false quote f = Ok t /\ fields_of_kv_v false unquote t = Err.
 Proof. exact fields_unbalanced_dquote. Qed.
-Print Assumptions C08_fields_unbalanced_dquote_refuted.
-Theorem C08_fields_edge_blank_refuted : forall quote unquote, QuoteSpec quote unquote ->
-  exists s f t f', fields_of_kv unquote s = Ok f /\ as_kv quote f = Ok t /\ fields_of_kv unquote t = Ok f' /\ f' <> f.
+Print Assumptions C08_fields_unbalanced_dquote_unquoted_refuted.
+Theorem C08_fields_edge_blank_unquoted_refuted : forall quote unquote, QuoteSpec quote unquote ->
+  exists s f t f', fields_of_kv_v false unquote s = Ok f /\ as_kv_v false quote f = Ok t /\ fields_of_kv_v false unquote t = Ok f' /\ f' <> f.
 Proof. exact fields_edge_blank. Qed.
-Print Assumptions C08_fields_edge_blank_refuted.
-Theorem C08_fields_quoted_name_refuted : forall quote unquote, QuoteSpec quote unquote -> OracleFacts quote unquote ->
-  exists s f t f', fields_of_kv unquote s = Ok f /\ as_kv quote f = Ok t /\ fields_of_kv unquote t = Ok f' /\ f' <> f.
+Print Assumptions C08_fields_edge_blank_unquoted_refuted.
+Theorem C08_fields_quoted_name_unquoted_refuted : forall quote unquote, QuoteSpec quote unquote -> OracleFacts quote unquote ->
+  exists s f t f', fields_of_kv_v false unquote s = Ok f /\ as_kv_v false quote f = Ok t /\ fields_of_kv_v false unquote t = Ok f' /\ f' <> f.
 Proof. exact fields_quoted_name. Qed.
-Print Assumptions C08_fields_quoted_name_refuted.
-Theorem C08_fields_refuted : forall quote unquote, QuoteSpec quote unquote -> ~ C08_fields_statement quote unquote.
+Print Assumptions C08_fields_quoted_name_unquoted_refuted.
+Theorem C08_fields_unquoted_refuted : forall quote unquote, QuoteSpec quote unquote -> ~ C08_fields_statement_v false false quote unquote.
 Proof.
   intros quote unquote QS St. destruct (fields_name_separator quote unquote QS) as (s & f & t & H1 & H2 & H3).
   destruct (St s f H1) as (t' & H4 & H5). rewrite H2 in H4. injection H4 as <-. rewrite H5 in H3. discriminate.
 Qed.
-Print Assumptions C08_fields_refuted.
+Print Assumptions C08_fields_unquoted_refuted.
 
 (* ---- pipe provenance: field.Parse(source tag line) ---- *)
+(* names that are not quoted literals, names and values of at most 255 bytes (the printed form may be longer) *)
 Theorem C08_pipe_provenance_partial : forall quote unquote, QuoteSpec quote unquote ->
-  forall m, keys_sorted m = true -> tag_safe m = true -> forallb (prov_pair_ok quote) m = true ->
+  forall m, keys_sorted m = true -> tag_safe m = true -> forallb prov_pair_ok m = true ->
   fields_of_kv unquote (line quote m) = Ok (enc_fields (flat m)).
 Proof. intros quote unquote QS m. exact (provenance quote unquote QS m). Qed.
 Print Assumptions C08_pipe_provenance_partial.
@@ -116,7 +171,7 @@ Theorem C08_pipe_provenance_refuted : forall quote unquote, OracleFacts quote un
 Proof.
   intros quote unquote (_ & U1 & _) St.
   specialize (St (DQ_X ++ [EQ; x31]) [(DQ_X, [x31])] eq_refl).
-  unfold line, line_ord, fields_of_kv in St. cbn in St. fold DQ_X in St. rewrite U1 in St. discriminate.
+  unfold line, line_v, line_ord_v, fields_of_kv, fields_of_kv_v in St. cbn in St. fold DQ_X in St. rewrite U1 in St. discriminate.
 Qed.
 Print Assumptions C08_pipe_provenance_refuted.
 
@@ -124,13 +179,16 @@ Print Assumptions C08_pipe_provenance_refuted.
 (* the hypotheses on the oracles are satisfiable *)
 Example C08_oracle_hypotheses_consistent : QuoteSpec squote sunquote /\ OracleFacts squote sunquote.
 Proof. split; [exact squote_spec|exact squote_facts]. Qed.
-(* a safe tag set with values that need quoting, inner quotes, backslashes, braces and non-ASCII bytes *)
+(* a safe tag set with values that need quoting for the old and for the new reasons (separators; a blank at an end, a
+   leading double quote, a closing brace at the end of the line), balanced inner quotes, backslashes and non-ASCII bytes *)
 Example C08_safe_tags_nontrivial :
-  let m := [([x61], [x62; COMMA; EQ; QUOTE; BSL]); ([x62; SP; x63], [x78; QUOTE; x79; QUOTE; RBR; LBR; BSL; xc3; xa9]); ([x7a], [])] in
+  let m := [([x61], [x62; COMMA; EQ; QUOTE; BSL]); ([x62; SP; x63], [x78; QUOTE; x79; QUOTE; RBR; LBR; BSL; xc3; xa9]);
+            ([x64], [SP; x78]); ([x65], [QUOTE; x78]); ([x7a], [x78; RBR])] in
   keys_sorted m = true /\ tag_safe m = true /\ to_map sunquote (line squote m) = Ok m.
 Proof. vm_compute. repeat split. Qed.
-(* a safe field list with an empty value, a quoted value and a duplicate name *)
-Example C08_safe_fields_nontrivial :
-  let f := enc_fields [[x61]; []; [x62]; [x63; COMMA; x64; QUOTE]; [x61]; [x78; SP; x79]] in
-  fields_safe squote f = true /\ exists t, as_kv squote f = Ok t /\ fields_of_kv sunquote t = Ok f.
+(* a field list with an empty name and value, values and names that need quoting for every reason, a duplicate name *)
+Example C08_fields_nontrivial :
+  let f := enc_fields [[x61]; []; [x62]; [x63; COMMA; x64; QUOTE]; [x61]; [x78; SP; x79]; []; [SP];
+                       [LBR; x61; EQ]; [BQ; x78]; [QUOTE; x61; QUOTE]; [x78; RBR]] in
+  fields_wf f = true /\ exists t, as_kv squote f = Ok t /\ fields_of_kv sunquote t = Ok f.
 Proof. split; [vm_compute; reflexivity|]. eexists. split; vm_compute; reflexivity. Qed.
